@@ -369,6 +369,7 @@ class WorkerPool:
         self._running: set[Reply] = set()
         self._shuttingdown = False
         self._waitall_events: list[Event] = []
+        self._primary_thread_task = None
         if hasprimary:
             if self.execmodel.backend not in ("thread", "main_thread_only"):
                 raise ValueError("hasprimary=True requires thread model")
@@ -391,19 +392,23 @@ class WorkerPool:
             self._perform_spawn(reply)
             # we are concurrent with trigger_shutdown and spawn
             with self._running_lock:
-                if self._shuttingdown:
-                    break
-                # Only clear if _try_send_to_primary_thread has not
+                # Only leave or clear if _try_send_to_primary_thread has not
                 # yet set the next self._primary_thread_task reply
-                # after waiting for this one to complete.
+                # after waiting for this one to complete: a task that was
+                # accepted by spawn() must still be executed.
                 if reply is self._primary_thread_task:
+                    if self._shuttingdown:
+                        break
                     primary_thread_task_ready.clear()
 
     def trigger_shutdown(self) -> None:
         with self._running_lock:
             self._shuttingdown = True
             if self._primary_thread_task_ready is not None:
-                self._primary_thread_task = None
+                # wake up the primary thread, but keep a task that spawn()
+                # already handed over and that did not finish yet
+                if self._primary_thread_task not in self._running:
+                    self._primary_thread_task = None
                 self._primary_thread_task_ready.set()
 
     def active_count(self) -> int:
